@@ -17,6 +17,13 @@ RULE = ("Stations drawn as (lat, lon, alt) with mass at the poles, the equator a
         "another station's frame; masks drawn as tables, queried on and off their nodes over "
         "[-4 pi, 4 pi].")
 ASSUMPTIONS = [
+    "case dates carry a drawn scale label (6 scales) and 30 % fall 5-20 min from 0h UTC on the turn of a year, a "
+    "leap-second day or its eve, or the first / last days of the EOP tables; targets are held in cartesian, "
+    "spherical, cylindrical or (inertial ones) element forms, possibly cloned (.copy(), pickle, copy.copy, "
+    "copy.deepcopy) before use, the station frame named by object or by name; stations are created in ITRF, PEF or "
+    "TIRF (parent_frame=) and, in the site facet, also with equatorial=True; one measure template per type serves "
+    "all targets of a case. A target held in an element form is compared with the conditioning of the elements about "
+    "the station (the library restores the held form after the frame change); singular ones are skipped",
     "the (lat, lon, alt) argument is handed over as tuple / list / float64 array / int64 array / python ints / "
     "mixed int-float (integer-valued degrees and metres), in the site facet also as float32 array (station "
     "expected where the float32 numbers say, to 30 m: the library then computes in single precision); the "
@@ -112,7 +119,8 @@ def same_object_state(obj, snap):
     return type(obj) is type(snap) and list(obj) == list(snap) and all(type(a) is type(b) for a, b in zip(obj, snap))
 
 
-def station(shard, lat, lon, alt, mask=None, mask_as="list", redef=None, arg=None, given=None):
+def station(shard, lat, lon, alt, mask=None, mask_as="list", redef=None, arg=None, given=None, parent="ITRF",
+            equatorial=False):
     """create_station under a name never used before in this process; identical requests
     share the frame; at most MAX_LIVE names stay registered.
 
@@ -123,7 +131,7 @@ def station(shard, lat, lon, alt, mask=None, mask_as="list", redef=None, arg=Non
     from beyond.frames.stations import create_station
 
     key = (lat, lon, alt, json.dumps(mask), mask_as, json.dumps(redef, sort_keys=True),
-           json.dumps(arg, sort_keys=True), id(given) if given is not None else None)
+           json.dumps(arg, sort_keys=True), id(given) if given is not None else None, parent, equatorial)
     if key in _cache:
         return _cache[key]
     while len(_cache) >= MAX_LIVE:
@@ -134,20 +142,35 @@ def station(shard, lat, lon, alt, mask=None, mask_as="list", redef=None, arg=Non
     m = mask
     if mask is not None and mask_as == "ndarray":
         m = np.array(mask, dtype=float)
+    elif mask is not None and mask_as == "tuple":
+        m = tuple(tuple(row) for row in mask)
     try:
         if redef:
             from beyond.dates import Date
             from beyond.orbits import StateVector
 
             for p in redef["prior"]:
-                old = create_station(name, (p["lat"], p["lon"], p["alt"]), mask=p.get("mask"))
+                # (same parent frame as the definition to come: a name that moves to *another* parent keeps
+                # its old edge in the orientation graph - reported separately, not part of this property)
+                if parent == "ITRF":
+                    old = create_station(name, (p["lat"], p["lon"], p["alt"]), mask=p.get("mask"))
+                else:
+                    from beyond.frames import frames as _fr
+
+                    old = create_station(name, (p["lat"], p["lon"], p["alt"]), parent_frame=_fr.get_frame(parent),
+                                         mask=p.get("mask"))
                 if redef.get("use"):
                     sv = StateVector([7e6, 1e6, -2e6, 10.0, 20.0, 30.0], Date(50000, 1000.0), "cartesian", "ITRF")
                     sv.copy(frame=old, form="spherical")
                     StateVector([1e3, 2e3, 3e3, 0, 0, 0], Date(50000, 1000.0), "cartesian", old).copy(frame="ITRF")
         obj = given if given is not None else latlonalt_arg(lat, lon, alt, arg)
         _args[name] = [obj, snapshot(obj), True]
-        frame = create_station(name, obj, mask=m)
+        if parent == "ITRF" and not equatorial:
+            frame = create_station(name, obj, mask=m)  # the defaults, not spelled out
+        else:
+            from beyond.frames import frames as _frames
+
+            frame = create_station(name, obj, parent_frame=_frames.get_frame(parent), mask=m, equatorial=equatorial)
     except BaseException:
         _forget(name)
         raise
@@ -167,10 +190,17 @@ def site_of(lat, lon, alt):
     return oe.geodetic_to_ecef(la, lo, alt, a, f), oe.enu(la, lo)
 
 
+LABELS = ("UTC", "TAI", "TT", "GPS", "UT1", "TDB")
+
+
 def mkdate(d):
+    """The instant whose UTC reading is (mjd, sec), handed to the library under the label the case
+    asks for (the geometry does not depend on the label; the Earth-fixed state of an inertial
+    target is taken from the library with the very same Date object)."""
     from beyond.dates import Date
 
-    return Date(int(d["mjd"]), float(d["sec"]))
+    dt = Date(int(d["mjd"]), float(d["sec"]))
+    return dt if d.get("label", "UTC") == "UTC" else dt.change_scale(d["label"])
 
 
 def setup_eop(shard):
@@ -256,7 +286,31 @@ def date(draw, shard=0):
     # (leap seconds are outside the library's contract)
     band = (3 * (shard // 2) + 1) % 4
     lo = 41700 + 4025 * band
-    return dict(mjd=draw(go.uniform_int(lo, lo + 4025)), sec=draw(go.uniform(200.0, 86200.0)))
+    out = dict(mjd=draw(go.uniform_int(lo, lo + 4025)), sec=draw(go.uniform(200.0, 86200.0)), edge="none",
+               label=LABELS[(draw(st.integers(0, 5)) + shard) % 6])
+    if draw(st.integers(0, 9)) < 3:
+        # days on which something changes: turn of the year, a leap-second day and its eve, both ends of
+        # the shipped EOP tables; 5 .. 20 minutes from 0h UTC on either side
+        import datetime
+
+        from .. import env
+        from ..oracles import iers
+
+        tab = iers.tables(env.repo())
+        leaps = [m for m in tab.leap_days() if tab.first < m < tab.last]
+        edge = ("year", "leap", "leap-eve", "table-end")[(draw(st.integers(0, 3)) + shard) % 4]
+        k = draw(st.integers(0, 42))
+        if edge == "year":
+            out["mjd"] = (datetime.date(1974 + (k + 5 * shard) % 43, 1, 1) - datetime.date(1858, 11, 17)).days - k % 2
+        elif edge == "leap":
+            out["mjd"] = leaps[(k + shard) % len(leaps)]
+        elif edge == "leap-eve":
+            out["mjd"] = leaps[(k + shard) % len(leaps)] - 1
+        else:
+            out["mjd"] = (tab.first, tab.first + 1, tab.last - 1, tab.last)[k % 4]
+        out["sec"] = float(draw(st.integers(300, 1200)) if k % 3 else draw(st.integers(85200, 86100)))
+        out["edge"] = edge
+    return out
 
 
 @st.composite
@@ -293,18 +347,46 @@ def sky(draw):
 INERTIAL = ["EME2000", "MOD", "TOD", "TEME", "PEF", "G50", "GCRF", "CIRF", "TIRF"]
 
 
+CLONES = ["none", ".copy()", "pickle", "copy.copy", "copy.deepcopy"]
+HELD_FIXED = ["cartesian", "cartesian", "spherical", "cylindrical"]
+HELD_INERTIAL = ["cartesian", "keplerian", "keplerian_mean", "equinoctial", "spherical", "keplerian_circular"]
+
+
+def dress(sv, t, polar=None):
+    """The target as the caller holds it: in the form and through the clone the case asks for."""
+    import copy
+    import pickle
+
+    held = t.get("held", "cartesian")
+    if held != "cartesian" and not (polar is not None and held in ("spherical", "cylindrical") and polar > 1e3):
+        sv = sv.copy(form=held)
+    how = t.get("clone", "none")
+    if how == ".copy()":
+        sv = sv.copy()
+    elif how == "pickle":
+        sv = pickle.loads(pickle.dumps(sv))
+    elif how == "copy.copy":
+        sv = copy.copy(sv)
+    elif how == "copy.deepcopy":
+        sv = copy.deepcopy(sv)
+    return sv
+
+
 @st.composite
 def target(draw, with_other):
     kinds = ["itrf"] * 6 + ["inertial"] * 3 + (["station"] * 2 if with_other else [])
     kind = draw(st.sampled_from(kinds))
+    how = dict(clone=CLONES[draw(st.integers(0, 11)) % 5 if draw(st.booleans()) else 0],
+               spell=draw(st.sampled_from(["object", "name"])))
     if kind == "itrf":
         t = draw(sky())
-        t.update(kind="itrf", v=draw(velocity()))
+        t.update(kind="itrf", v=draw(velocity()), held=draw(st.sampled_from(HELD_FIXED)), **how)
         return t
     if kind == "inertial":
         el = draw(go.elements(hyperbolic=False, emax_ell=0.9, rp_range=(1.03, 10.0)))
-        return dict(kind="inertial", frame=draw(st.sampled_from(INERTIAL)), el=el)
-    return dict(kind="station", xyz=[draw(go.uniform(-1e6, 1e6)) for _ in range(3)], v=draw(velocity()))
+        return dict(kind="inertial", frame=draw(st.sampled_from(INERTIAL)), el=el,
+                    held=draw(st.sampled_from(HELD_INERTIAL)), **how)
+    return dict(kind="station", xyz=[draw(go.uniform(-1e6, 1e6)) for _ in range(3)], v=draw(velocity()), **how)
 
 
 @st.composite
@@ -327,12 +409,17 @@ def redefinition(draw, shard, site):
     return dict(kind=kind, prior=prior, use=draw(st.booleans())), mask
 
 
+PARENTS = ["ITRF", "ITRF", "ITRF", "ITRF", "PEF", "TIRF"]
+
+
 @st.composite
 def topo_case(draw, shard, tier):
     other = draw(geodetic(shard)) if draw(st.integers(0, 3)) == 0 else None
     site = draw(geodetic(shard))
     redef, mask = draw(redefinition(shard, site))
-    return dict(shard=shard, site=site, other=other, date=draw(date(shard)), redef=redef, mask=mask,
+    # the Earth-fixed frame the station is created in (WGS84 = ITRF is the default)
+    parent = PARENTS[(draw(st.integers(0, 5)) + shard) % 6]
+    return dict(shard=shard, site=site, other=other, date=draw(date(shard)), redef=redef, mask=mask, parent=parent,
                 targets=draw(st.lists(target(other is not None), min_size=1, max_size=24)))
 
 
@@ -350,6 +437,7 @@ def site_case(draw, shard, tier):
             reuse = dict(lat=float(round(reuse["lat"])), lon=float(round(reuse["lon"])), alt=float(round(reuse["alt"])))
         reuse.pop("arg", None)
     return dict(shard=shard, site=site, date=draw(date(shard)), reuse=reuse,
+                parent=PARENTS[(draw(st.integers(0, 5)) + shard) % 6], equatorial=(k + shard) % 5 == 0,
                 probe=[draw(go.uniform(-1e5, 1e5)) for _ in range(3)])
 
 
@@ -396,7 +484,7 @@ def mask_query(draw, azs):
 @st.composite
 def mask_case(draw, shard, tier):
     table = draw(mask_table())
-    how = draw(st.sampled_from(["list", "list", "assign", "assign", "ndarray"]))
+    how = draw(st.sampled_from(["list", "tuple", "assign", "assign", "ndarray"]))
     qs = draw(st.lists(mask_query(table[0]), min_size=1, max_size=40))
     return dict(shard=shard, site=draw(geodetic(shard)), table=table, how=how, queries=qs)
 
@@ -404,29 +492,35 @@ def mask_case(draw, shard, tier):
 # ----------------------------------------------------------------- target -> Earth-fixed state
 
 
-def build_target(t, dt, site, triad, shard, other_frame, other_geo):
-    """Returns (statevector to hand to the library, Earth-fixed position, velocity, labels)."""
+def build_target(t, dt, site, triad, shard, other_frame, other_geo, parent="ITRF"):
+    """Returns (statevector to hand to the library, position and velocity in the station's parent
+    frame, labels).  `parent` is the Earth-fixed frame the station was created in."""
     from beyond.orbits import StateVector
 
+    extra = [f"held:{t.get('held', 'cartesian')}", f"clone:{t.get('clone', 'none')}"]
     if t["kind"] == "itrf":
         p = oe.from_topo(site, triad, t["az"], t["el"], t["rng"])
         v = np.array(t["v"], float)
-        sv = StateVector(list(p) + list(v), dt, "cartesian", "ITRF")
-        return sv, p, v, ["src:ITRF"]
+        sv = StateVector(list(p) + list(v), dt, "cartesian", parent)
+        polar = float(p @ p) / max(float(p[0] ** 2 + p[1] ** 2), 1e-300)
+        return dress(sv, t, polar), p, v, [f"src:{parent}"] + extra
     if t["kind"] == "inertial":
         el = t["el"]
         cart = tb.kep2cart(el["a"], el["e"], el["i"], el["raan"], el["argp"], el["nu"], go.MU["Earth"])
-        sv = StateVector(list(cart), dt, "cartesian", t["frame"])
-        fixed = np.asarray(sv.copy(frame="ITRF", form="cartesian").base, float)
-        return sv, fixed[:3], fixed[3:], [f"src:{t['frame']}"]
-    # given in another station's axes: x north, y west, z up of *that* station
+        sv = dress(StateVector(list(cart), dt, "cartesian", t["frame"]), t)
+        fixed = np.asarray(sv.copy(form="cartesian").copy(frame=parent).base, float)
+        return sv, fixed[:3], fixed[3:], [f"src:{t['frame']}"] + extra
+    # given in another station's axes: x north, y west, z up of *that* station (created in ITRF)
     s2, (e2, n2, u2) = site_of(other_geo["lat"], other_geo["lon"], other_geo["alt"])
     x, y, z = t["xyz"]
     vx, vy, vz = t["v"]
     p = s2 + x * n2 - y * e2 + z * u2
     v = vx * n2 - vy * e2 + vz * u2
-    sv = StateVector([x, y, z, vx, vy, vz], dt, "cartesian", other_frame)
-    return sv, p, v, ["src:station"]
+    if parent != "ITRF":
+        pv = np.asarray(StateVector(list(p) + list(v), dt, "cartesian", "ITRF").copy(frame=parent).base, float)
+        p, v = pv[:3], pv[3:]
+    sv = dress(StateVector([x, y, z, vx, vy, vz], dt, "cartesian", other_frame), t)
+    return sv, p, v, ["src:station"] + extra
 
 
 def topo_tolerances(site, p, v, rng, el):
@@ -445,14 +539,36 @@ def topo_tolerances(site, p, v, rng, el):
     )
 
 
-def compare_topo(sph, site, triad, p, v, where):
+ELEMENT_FORMS = ("keplerian", "keplerian_mean", "equinoctial", "keplerian_circular")
+
+
+def held_conditioning(t, p, v, site):
+    """The library restores the form a state is held in after every frame change: a target held in an
+    element form is turned into elements *about the station* on its way to spherical.  Returns the
+    conditioning of that detour (1 for the other forms), None where it is singular (the conic of the
+    station-relative state within 1e-3 of a parabola, e > 20, |H| > 8, or in the local horizontal plane)."""
+    if t.get("held", "cartesian") not in ELEMENT_FORMS:
+        return 1.0
+    el = tb.cart2elements(list(np.asarray(p, float) - site) + list(v), go.MU["Earth"])
+    e = el["e"]
+    if abs(e - 1) < 1e-3 or e > 20 or not math.isfinite(e) or math.sin(el["i"]) < 0.01:
+        return None
+    k = 1.0 / abs(1 - e) / math.sin(el["i"])
+    if e > 1:
+        if abs(el["E"]) > 8:
+            return None
+        k *= math.cosh(el["E"]) ** 2
+    return max(1.0, 1e3 * k)  # 1e-13 relative rounding x k on top of the 1e-16-level budget of the direct route
+
+
+def compare_topo(sph, site, triad, p, v, where, factor=1.0):
     """sph = library (r, theta, phi, r_dot, theta_dot, phi_dot).  Returns worst ratio."""
     got = np.asarray(sph, float)
     if not np.all(np.isfinite(got)):
         raise Violation("non-finite", f"{where}: {got.tolist()}")
     rng, az, el = oe.topo(site, triad, p)
     rdot, azdot, eldot = oe.topo_rates_analytic(site, triad, p, v)
-    tol = topo_tolerances(site, p, v, rng, el)
+    tol = {k_: t_ * factor for k_, t_ in topo_tolerances(site, p, v, rng, el).items()}
     errs = dict(
         r=abs(got[0] - rng),
         az=abs(oe.angdiff(-got[1], az)),
@@ -514,7 +630,8 @@ def site_classes(g):
 
 def date_classes(d):
     y = 1973 + (d["mjd"] - 41683) / 365.25
-    return ["year<1985" if y < 1985 else "year<2000" if y < 2000 else "year>=2000"]
+    return ["year<1985" if y < 1985 else "year<2000" if y < 2000 else "year>=2000",
+            f"label:{d.get('label', 'UTC')}", f"edge:{d.get('edge', 'none')}"]
 
 
 # ----------------------------------------------------------------- facet: site
@@ -526,7 +643,8 @@ def check_site(case):
     g = dict(case["site"])
     arg = g.get("arg")
     kind = (arg or {}).get("container", "tuple")
-    fr = station(case["shard"], g["lat"], g["lon"], g["alt"], arg=arg)
+    parent = case.get("parent", "ITRF")
+    fr = station(case["shard"], g["lat"], g["lon"], g["alt"], arg=arg, parent=parent)
     if kind == "f32":
         # the station is where the *float32* numbers say (the library then works in single precision)
         for k_ in ("lat", "lon", "alt"):
@@ -569,27 +687,28 @@ def check_site(case):
     if kind == "f32":
         from beyond.orbits import StateVector as SV
 
-        o = np.asarray(SV([0.0] * 6, dt, "cartesian", fr).copy(frame="ITRF").base, float)
+        o = np.asarray(SV([0.0] * 6, dt, "cartesian", fr).copy(frame=parent).base, float)
         d = float(np.linalg.norm(o[:3] - site))
         if not d <= 30.0:  # single-precision arithmetic on 6.4e6 m: metres
             raise Violation("site-position", f"station given as float32: origin {d:.3g} m from WGS-84 of the float32 values")
         return dict(nt=abs(g["lat"]) > 1.0, cls=arg_cls, ratio=d / 30.0)
 
+    arg_cls.append(f"parent:{parent}")
     zero = StateVector([0.0] * 6, dt, "cartesian", fr)
-    fixed = np.asarray(zero.copy(frame="ITRF").base, float)
+    fixed = np.asarray(zero.copy(frame=parent).base, float)
     if not np.all(np.isfinite(fixed)):
-        raise Violation("non-finite", f"station origin in ITRF {fixed.tolist()}")
+        raise Violation("non-finite", f"station origin in {parent} {fixed.tolist()}")
     d = float(np.linalg.norm(fixed[:3] - site))
     worst = max(worst, d / 1e-6)
     if d > 1e-6:
         raise Violation("site-position",
-                        f"station origin in ITRF {fixed[:3].tolist()}, WGS-84 gives {site.tolist()} ({d:.3g} m apart)")
+                        f"station origin in {parent} {fixed[:3].tolist()}, WGS-84 gives {site.tolist()} ({d:.3g} m apart)")
     if float(np.linalg.norm(fixed[3:])) > 1e-12:
-        raise Violation("site-at-rest", f"station origin moves in ITRF: {fixed[3:].tolist()} m/s")
+        raise Violation("site-at-rest", f"station origin moves in {parent}: {fixed[3:].tolist()} m/s")
 
     # the axes: a point given in station coordinates lands at origin + x north - y east + z up
     x, y, z = case["probe"]
-    pt = np.asarray(StateVector([x, y, z, 0, 0, 0], dt, "cartesian", fr).copy(frame="ITRF").base, float)
+    pt = np.asarray(StateVector([x, y, z, 0, 0, 0], dt, "cartesian", fr).copy(frame=parent).base, float)
     want_pt = site + x * north - y * east + z * up
     d = float(np.linalg.norm(pt[:3] - want_pt))
     worst = max(worst, d / 1e-6)
@@ -597,6 +716,25 @@ def check_site(case):
         raise Violation("site-axes", f"station point ({x}, {y}, {z}) lands {d:.3g} m from origin + x north + y west + z up")
     if float(np.linalg.norm(pt[3:])) > 1e-12:
         raise Violation("site-at-rest", f"a point fixed to the station moves in ITRF: {pt[3:].tolist()}")
+
+    if case.get("equatorial"):
+        # the documented option: same origin, axes of EME2000
+        eq = station(case["shard"], g["lat"], g["lon"], g["alt"], parent=parent, equatorial=True)
+        o_eq = np.asarray(StateVector([0.0] * 6, dt, "cartesian", eq).copy(frame=parent).base, float)
+        if float(np.linalg.norm(o_eq[:3] - site)) > 1e-6:
+            raise Violation("site-position", f"equatorial station: origin {np.linalg.norm(o_eq[:3] - site):.3g} m from WGS-84")
+        o_in = np.asarray(StateVector([0.0] * 6, dt, "cartesian", eq).copy(frame="EME2000").base, float)
+        p_in = np.asarray(StateVector([x, y, z, 1.0, 2.0, 3.0], dt, "cartesian", eq).copy(frame="EME2000").base, float)
+        d = float(np.linalg.norm(p_in[:3] - o_in[:3] - np.array([x, y, z])))
+        dv = float(np.linalg.norm(p_in[3:] - o_in[3:] - np.array([1.0, 2.0, 3.0])))
+        worst = max(worst, d / 1e-6, dv / 1e-9)
+        if d > 1e-6 or dv > 1e-9:
+            raise Violation("site-equatorial", f"equatorial station: a point ({x}, {y}, {z}) is {d:.3g} m, {dv:.3g} m/s away "
+                                               f"from origin + the same numbers along the EME2000 axes")
+        arg_cls.append("equatorial")
+    if parent != "ITRF":
+        return dict(nt=abs(g["lat"]) > 1.0, cls=site_classes(g) + date_classes(case["date"]) + [f"eop:{eop_name()}"] + arg_cls,
+                    ratio=worst)
 
     # inertial motion: v = omega x r about the celestial pole of date
     inert = np.asarray(zero.copy(frame="EME2000").base, float)
@@ -645,7 +783,7 @@ def redefined_station(case):
     """The station of the case; when the case says so its name was held by another definition before."""
     g = case["site"]
     fr = station(case["shard"], g["lat"], g["lon"], g["alt"], mask=case.get("mask"), redef=case.get("redef"),
-                 arg=g.get("arg"))
+                 arg=g.get("arg"), parent=case.get("parent", "ITRF"))
     cls = []
     if g.get("arg"):
         cls.append("arg:" + g["arg"]["container"] + ("+ints" if any(g["arg"].get("ints") or []) else ""))
@@ -675,16 +813,21 @@ def check_topocentric(case):
     cls = site_classes(g) + date_classes(case["date"]) + [f"eop:{eop_name()}"] + redef_cls
     if other:
         cls.append("two-stations")
+    cls.append(f"parent:{case.get('parent', 'ITRF')}")
     nt = False
     for k, t in enumerate(case["targets"]):
         if t["kind"] == "station" and other is None:
             continue
-        sv, p, v, labels = build_target(t, dt, site, triad, case["shard"], other_fr, other)
+        sv, p, v, labels = build_target(t, dt, site, triad, case["shard"], other_fr, other, case.get("parent", "ITRF"))
         before = np.array(sv.base, float)
-        sph = sv.copy(frame=fr, form="spherical")
+        factor = held_conditioning(t, p, v, site)
+        if factor is None:
+            cls.append("skipped:station-conic")
+            continue
+        sph = sv.copy(frame=fr.name if t.get("spell") == "name" else fr, form="spherical")
         if sph.frame is not fr or sph.form.name != "spherical":
             raise Violation("topo-meta", f"copy(frame=station, form='spherical') gave frame {sph.frame} form {sph.form.name}")
-        w, rng, az, el = compare_topo(sph.base, site, triad, p, v, f"target {k} ({labels[0][4:]})")
+        w, rng, az, el = compare_topo(sph.base, site, triad, p, v, f"target {k} ({labels[0][4:]})", factor)
         if not np.array_equal(np.asarray(sv.base, float), before):
             raise Violation("source-mutated", "copy(frame=station) changed the receiver")
         worst = max(worst, w)
@@ -708,18 +851,34 @@ def check_measures(case):
     path = [fr] + ["SAT" if j % 2 == 0 else fr for j in range(legs)]
     worst = 0.0
     cls = [f"legs:{legs}"] + redef_cls
-    for k, t in enumerate(case["targets"]):
+    # one template per measure type serves every target of the case (and the first target twice);
+    # the library starts every case from the same state: a measure at another date first
+    from beyond.orbits import StateVector as _SV
+
+    templates = {klass: klass(path, None, None) for klass in (Range, Azimut, Elevation, Doppler)}
+    shift = 3 if case["date"]["mjd"] < 50000 else -3
+    warm = _SV([7e6, 1e6, 2e6, 0.0, 7e3, 0.0], mkdate(dict(case["date"], mjd=case["date"]["mjd"] + shift, sec=40000.0)),
+               "cartesian", "EME2000")
+    for klass, tmpl in templates.items():
+        tmpl.from_orbit(warm)
+    todo = list(enumerate(case["targets"]))
+    todo.append(todo[0])
+    for k, t in todo:
         sv, p, v, labels = build_target(t, dt, site, triad, case["shard"], None, None)
+        factor = held_conditioning(t, p, v, site)
+        if factor is None:
+            cls.append("skipped:station-conic")
+            continue
         sph = np.asarray(sv.copy(frame=fr, form="spherical").base, float)
         vals = {}
         for klass in (Range, Azimut, Elevation, Doppler):
-            tmpl = klass(path, None, None)
-            m = klass(path, None, None).from_orbit(sv)
+            tmpl = templates[klass]
+            m = tmpl.from_orbit(sv)
             if type(m) is not klass or m.type != klass.__name__:
                 raise Violation("measure-type", f"{klass.__name__}.from_orbit returned {type(m).__name__}")
             if tuple(m.path) != tuple(path) or m.frame is not fr:
                 raise Violation("measure-path", f"{klass.__name__}.from_orbit changed the path")
-            if m.date != dt:
+            if m.date != dt or m.date.scale.name != dt.scale.name:
                 raise Violation("measure-date", f"{klass.__name__}.from_orbit date {m.date} for an orbit at {dt}")
             if tmpl.value is not None:
                 raise Violation("measure-template", "from_orbit modified the receiver")
@@ -733,7 +892,7 @@ def check_measures(case):
                                 + (f" (x {legs} legs)" if name == "Range" else ""))
         # ... which are the oracle's
         synth = [vals["Range"] / legs, vals["Azimut"], vals["Elevation"], vals["Doppler"], sph[4], sph[5]]
-        w_, rng, az, el = compare_topo(synth, site, triad, p, v, f"measure of target {k}")
+        w_, rng, az, el = compare_topo(synth, site, triad, p, v, f"measure of target {k}", factor)
         worst = max(worst, w_)
         cls += labels + sky_classes(az, el, rng)
     return dict(nt=True, cls=cls, ratio=worst)
